@@ -26,13 +26,13 @@ def run(chk):
         chunk = 700
     else:
         jobs = [
-            ("q5", ["-q", "5", "-fams", ",".join([T, U, C, G]), "-maxn", "4", "-cnfn", "4", "-leaves", "5", "-cap", "600", "-deltas", "10"]),
+            ("q5", ["-q", "5", "-fams", ",".join([T, U, C, G]), "-maxn", "4", "-cnfn", "4", "-leaves", "5", "-cap", "250", "-deltas", "10"]),
             ("q11-tu", ["-q", "11", "-fams", ",".join([T, U]), "-maxn", "5", "-deltas", "10"]),
-            ("q11-cnf", ["-q", "11", "-fams", C, "-cnfn", "5", "-cap", "900", "-deltas", "10", "-ids", "dense,large"]),
-            ("q11-tree", ["-q", "11", "-fams", G, "-maxn", "5", "-leaves", "5", "-cap", "600", "-deltas", "10", "-ids", "dense,unsorted"]),
-            ("q23", ["-q", "23", "-fams", ",".join([T, U, C, G]), "-maxn", "5", "-cnfn", "4", "-leaves", "4", "-cap", "300", "-deltas", "22", "-ids", "dense,sparse"]),
-            ("q251", ["-q", "251", "-fams", ",".join([H, T, U, C, G]), "-maxn", "5", "-cnfn", "4", "-leaves", "4", "-cap", "200", "-deltas", "5"]),
-            ("q45971", ["-q", "45971", "-fams", ",".join([H, T, U, C, G]), "-maxn", "5", "-cnfn", "4", "-leaves", "4", "-cap", "200", "-deltas", "5"]),
+            ("q11-cnf", ["-q", "11", "-fams", C, "-cnfn", "5", "-cap", "350", "-deltas", "10", "-ids", "dense,large"]),
+            ("q11-tree", ["-q", "11", "-fams", G, "-maxn", "5", "-leaves", "5", "-cap", "250", "-deltas", "10", "-ids", "dense,unsorted"]),
+            ("q23", ["-q", "23", "-fams", ",".join([T, U, C, G]), "-maxn", "5", "-cnfn", "4", "-leaves", "4", "-cap", "120", "-deltas", "10", "-ids", "dense,sparse"]),
+            ("q251", ["-q", "251", "-fams", ",".join([H, T, U, C, G]), "-maxn", "5", "-cnfn", "4", "-leaves", "4", "-cap", "80", "-deltas", "5", "-ids", "dense,large"]),
+            ("q45971", ["-q", "45971", "-fams", ",".join([H, T, U, C, G]), "-maxn", "5", "-cnfn", "4", "-leaves", "4", "-cap", "80", "-deltas", "5", "-ids", "dense,sparse"]),
         ]
         mcs = ["VSSMC_q5.cfg", "VSSMC_q7.cfg", "VSSMC_q5_thorough.cfg", "VSSMC_q7_thorough.cfg"]
         chunk = 1500
